@@ -89,9 +89,16 @@ def tokenize_line(line: str):
             i += 1
             continue
         j = i
+        # as in the reference assembler's field splitter: `//` does not start a comment inside base64( ... ) / b64( ... )
+        # nor inside the field that follows the `base64` / `b64` keyword (the base64 alphabet contains '/')
+        in_b64 = bool(toks) and toks[-1] in ("base64", "b64")
         while j < n and line[j] not in ' \t;':
-            if line[j] == "/" and j + 1 < n and line[j + 1] == "/":
+            if line[j] == "/" and j + 1 < n and line[j + 1] == "/" and not in_b64:
                 break
+            if line[j] == "(" and line[i:j] in ("base64", "b64"):
+                in_b64 = True
+            elif line[j] == ")" and in_b64:
+                in_b64 = False
             j += 1
         toks.append(line[i:j])
         i = j
